@@ -13,13 +13,13 @@ CHECKS = {
    text="All byte strings of length <= 3 in every fragmentation, first-byte x Remaining-Length x 8-symbol bodies, and every single-byte substitution / truncation / length edit / splice of a corpus of valid short frames are fed to the v3, v5 and version-sniffing decoders; oracle: no panic (overflow checks on), consumption never past the reference frame, listed malformation classes rejected, oversize rejected at the header, accepted packets stable under re-encoding.",
    note="Only the malformation classes named in the property are demanded to be rejected; classification by refmqtt.rs. Hook verif::sniff exposes the private sniffing decoder.", design="4/C02"),
  "C03": dict(engine="simnet", technique=A_TECH,
-   text="All sequences of up to 3 (quick) / 4 (thorough) inbound packets over {PUBLISH q0/q1/q2, PUBLISH split in two writes, PUBREL, PINGREQ, SUBSCRIBE} in all four roles (clients with protocol-service handler and with topic router), interleaved in every order with handler completions whose outcome (ok / error / mapped negative ack) the explorer chooses; a monitor over handler log and positioned wire output checks handled-once, exact fields and payload, ack type/count/position per QoS, no success ack after a failing handler.",
-   note=A_NOTE + " Client-role QoS 2 is a known finding (C03-1, C03-2); the monitor keeps judging the other clauses in executions that meet it.", design="4/C03"),
+   text="All sequences of up to 3 (quick) / 4 (thorough) inbound packets over {PUBLISH q0/q1/q2, PUBLISH split in two writes, PUBREL, PINGREQ, SUBSCRIBE} in all four roles (clients with protocol-service handler and with topic router), interleaved in every order with handler completions whose outcome (ok / error / mapped negative ack) the explorer chooses, and with synchronously completing handlers; a monitor over handler log and positioned wire output checks handled-once, exact fields and payload, ack type/count/position per QoS, no success ack after a failing handler.",
+   note=A_NOTE + " Client-role QoS 2 was a known finding (C03-1, C03-2) and has since been repaired; the monitor now judges the full PUBREC / PUBREL / PUBCOMP exchange in client roles too.", design="4/C03"),
  "C04": dict(engine="simnet", technique=A_TECH,
    text="v3 and v5 server: all sequences of up to 4 (quick) / 5 (thorough) requests over {PUBLISH q1, q2, PUBREL, PINGREQ, SUBSCRIBE, UNSUBSCRIBE, AUTH} with publish handler and protocol service each immediately-ready or gated, arrivals one per read or corked into every grouping, completions in every order; after every step the handler-produced responses on the wire must be a prefix of the request order and at the end of healthy runs equal to it.",
    note=A_NOTE, design="4/C04"),
  "C11": dict(engine="simnet", technique=A_TECH,
-   text="All histories of up to 3-5 packets over {PUBLISH q1/q2, SUBSCRIBE, UNSUBSCRIBE, PUBREL} x id {1,2} (clients: QoS 1 + PUBREL) incl. non-initial states, v5 also with handler errors mapped to negative acknowledgements and a duplicate whose payload arrives in pieces, handler/protocol completions placed everywhere, <=1 injection while runnable; exact attribution (payload / filter tags) and a reference in-use set decide: a packet is never delivered while an exchange with its id is open, never refused when its id was acknowledged free, refusals take the version's form, unknown PUBREL is refused.",
+   text="All histories of up to 3-5 packets over {PUBLISH q1/q2, SUBSCRIBE, UNSUBSCRIBE, PUBREL} x id {1,2} (clients: QoS 1/2 publishes + PUBREL) incl. non-initial states, v5 also with handler errors mapped to negative acknowledgements and a duplicate whose payload arrives in pieces, handler/protocol completions placed everywhere, <=1 injection while runnable; exact attribution (payload / filter tags) and a reference in-use set decide: a packet is never delivered while an exchange with its id is open, never refused when its id was acknowledged free, refusals take the version's form, unknown PUBREL is refused.",
    note=A_NOTE + " PUBREL naming an id held by a non-QoS-2 exchange is outside the statement and not generated.", design="4/C11"),
  "C05": dict(engine="simnet", technique=A_TECH,
    text="All schedules (orders of Start/PeerAck/PeerAckBatch/Cancel/window events at quiescence plus <=1 (quick) / <=2 (thorough) injections while tasks are runnable) of cap+1..cap+2 application tasks using the awaiting send APIs against send limits 1..3 in all four roles; the window invariant is evaluated after every task poll and every event.",
